@@ -1,13 +1,30 @@
 import RomeaModel.Proto
 import RomeaModel.Pose
 import RomeaModel.Derivatives
+import RomeaModel.Scalar
+import RomeaModel.LeastSquares
+import RomeaModel.LeastSquaresOracles
 open Romea Romea.Proto Romea.Pose Romea.Deriv
 
 /-! Driver for C12: `SmartRotation3D` derivative matrices, `dRTdAngles`, the pose covariance of
     `operator*(Affine3d, Pose3D)`, the least-squares estimate covariance — the model of `RomeaModel/Derivatives.lean` at `Float` (binary64).
 
     Where the harness prints finite differences of the implementation's own maps, this driver prints the
-    model's "true derivative" definitions (`trueDerivs`) resp. the model's pose Jacobian. -/
+    model's "true derivative" definitions (`trueDerivs`) resp. the model's pose Jacobian.
+
+    Solver reuse (`lsh.*`): ONE `LeastSquares<double>` object per case, driven through problem sequences — the state
+    machine of `RomeaModel/LeastSquares.lean` (the C07 model) with the oracles of `RomeaModel/LeastSquaresOracles.lean`:
+
+      lsh.new e [n]              LeastSquares(e) / LeastSquares(e, n)                         -> ok
+      lsh.est e                  setEstimateSize                                              -> ok
+      lsh.size n                 setDataSize                                                  -> grew 0|1
+      lsh.row i v_0..v_{e-1} y   J(i,c) = v_c (c < est), Y(i) = y                             -> ok
+      lsh.w i w                  W(i) = w                                                     -> ok
+      lsh.pre a_0.. b_0..        setPreconditionner(diag a, b)                                -> ok
+      lsh.svd | lsh.chol | lsh.wls   the three estimators (the estimate is C07's subject)     -> ok
+      lsh.cov var                computeEstimateCovariance                                    -> P e*e values (row-major)
+
+    Lines the C++ could only answer with undefined behaviour (index outside the buffers, no object) are `bad-op`. -/
 
 def parseFloats? (l : List String) : Option (Array Float) := (parseAll? parseF64? l).map List.toArray
 
@@ -40,8 +57,65 @@ def invFloat {n : Nat} (g : Mat n n Float) : Mat n n Float := Id.run do
   let res := a
   return fun i j => (res[i.1]!)[n + j.1]!
 
-def step (st : Unit) (toks : List String) : Unit × String :=
+/-- the solver object of the `lsh.*` ops (`none` until `lsh.new`) -/
+abbrev St := Option (LeastSquares.State Float)
+
+def nanF : Float := 0.0 / 0.0
+
+def natIn? (s : String) (lo hi : Nat) : Option Nat := s.toNat?.bind fun v => if lo ≤ v ∧ v ≤ hi then some v else none
+
+/-- `lsh.*` on the object `s` -/
+def stepHistory (s : LeastSquares.State Float) (toks : List String) : LeastSquares.State Float × String :=
   match toks with
+  | ["lsh.est", e] =>
+    match natIn? e 1 8 with
+    | some e => (LeastSquares.setEstimateSize s e (fun _ _ => nanF), "ok")
+    | none => (s, "bad-op")
+  | ["lsh.size", n] =>
+    match natIn? n 0 64 with
+    | some n => let r := LeastSquares.setDataSize s n (fun _ _ => nanF) (fun _ => nanF); (r.1, "grew " ++ fmtBool r.2)
+    | none => (s, "bad-op")
+  | "lsh.row" :: i :: rest =>
+    match i.toNat?, parseAll? parseF64? rest with
+    | some i, some vals =>
+      if vals.length ≠ s.est + 1 ∨ i ≥ s.Y.size then (s, "bad-op") else
+      (LeastSquares.writeRow s i (vals.take s.est).toArray (vals.getD s.est 0.0), "ok")
+    | _, _ => (s, "bad-op")
+  | ["lsh.w", i, w] =>
+    match i.toNat?, parseF64? w with
+    | some i, some w => if i ≥ s.W.size then (s, "bad-op") else (LeastSquares.setW s i w, "ok")
+    | _, _ => (s, "bad-op")
+  | "lsh.pre" :: rest =>
+    match parseAll? parseF64? rest with
+    | some vals =>
+      let e := s.est
+      if vals.length ≠ 2 * e then (s, "bad-op") else
+      let v := vals.toArray
+      (LeastSquares.setPreconditioner s (LeastSquares.Mat.tab e e fun i j => if i = j then v.getD i 0.0 else 0.0)
+        (LeastSquares.Vec.tab e fun i => v.getD (e + i) 0.0), "ok")
+    | none => (s, "bad-op")
+  | ["lsh.svd"] =>
+    if s.dataSize > s.Y.size then (s, "bad-op") else ((LeastSquares.estimateSVD LeastSquares.execEnv s).1, "ok")
+  | ["lsh.chol"] =>
+    if s.dataSize > s.Y.size then (s, "bad-op") else ((LeastSquares.estimateCholesky LeastSquares.execEnv s).1, "ok")
+  | ["lsh.wls"] =>
+    if s.dataSize > s.Y.size then (s, "bad-op") else ((LeastSquares.weightedEstimate LeastSquares.execEnv s).1, "ok")
+  | ["lsh.cov", v] =>
+    match parseF64? v with
+    | some v => (s, unwords ("P" :: ((LeastSquares.covariance s v).toList.map fun r => r.toList.map fmtF64).flatten))
+    | none => (s, "bad-op")
+  | _ => (s, "bad-op")
+
+def step (st : St) (toks : List String) : St × String :=
+  match toks with
+  | ["lsh.new", e] =>
+    match natIn? e 1 8 with
+    | some e => (some (LeastSquares.State.ofEst e), "ok")
+    | none => (st, "bad-op")
+  | ["lsh.new", e, n] =>
+    match natIn? e 1 8, natIn? n 0 64 with
+    | some e, some n => (some (LeastSquares.State.ofEstData e n), "ok")
+    | _, _ => (st, "bad-op")
   | "ls.cov" :: kind :: ns :: ms :: rest =>
     match kind, ns.toNat?, ms.toNat?, parseFloats? rest with
     | k, some n, some m, some a =>
@@ -54,6 +128,11 @@ def step (st : Unit) (toks : List String) : Unit × String :=
       else (st, "bad-op")
     | _, _, _, _ => (st, "bad-op")
   | op :: args =>
+    if op.startsWith "lsh." then
+      match st with
+      | some s => let r := stepHistory s toks; (some r.1, r.2)
+      | none => (st, "bad-op")
+    else
     match parseFloats? args with
     | none => (st, "bad-op")
     | some a =>
@@ -83,4 +162,4 @@ def step (st : Unit) (toks : List String) : Unit × String :=
       | _, _ => (st, "bad-op")
   | _ => (st, "bad-op")
 
-def main : IO Unit := Proto.run () step
+def main : IO Unit := Proto.run (none : St) step
